@@ -128,7 +128,7 @@ def eval_alone(payload) -> tuple:
 def evaluate(case) -> Verdict:
     v = Verdict()
     if case["kind"] == "pure":
-        src = gg.to_source(case["main"])
+        src = case["src"] if "src" in case else gg.to_source(case["main"])
         env = envs.make_env(case["cfg"], PARTIALS)
         p = oc.outcome_of(lambda: env.from_string(src))
         if p[0] != "ok":
@@ -149,7 +149,7 @@ def evaluate(case) -> Verdict:
         o2 = oc.short(oc.render(src, lambda: t, **data2))
         if o1 != o2:
             v.fail("second-render-differs", f"first={o1!r:.150} second={o2!r:.150}: {src!r:.300}")
-        v.nontrivial = any(isinstance(x, (list, dict)) for x in data.values()) and '"filters": [{' in core.canon(case["main"])
+        v.nontrivial = any(isinstance(x, (list, dict)) for x in data.values()) and ("src" in case or '"filters": [{' in core.canon(case["main"]))
         v.labels.append("pure:" + o1[0])
         return v
     # (b) history
@@ -240,6 +240,26 @@ def pure_cases(draw):
     return {"kind": "pure", "cfg": cfg, "main": main, "data": data}
 
 
+# every sequence filter (and the tags that iterate) applied straight to flat, unsorted lists, tuples and hashes of the render data
+INPLACE_FILTERS = [
+    "sort", "sort: 'a'", "sort_natural", "sort_numeric", "reverse", "uniq", "compact", "concat: items", "concat: other", "map: 'a'", "where: 'a'", "where: 'a', 1",
+    "reject: 'a'", "join: ','", "first", "last", "size", "slice: 1, 2", "sum", "sum: 'a'", "find: 'a', 1", "find_index: 'a', 1", "has: 'a'", "index: 1",
+    "push: 9", "pop", "shift", "unshift: 9", "append: 'x'", "json", "default: other", "sort | reverse", "concat: items | concat: items", "uniq | sort",
+]
+INPLACE_DATA = {
+    "items": [3, 1, 2, 1], "other": [7, 8], "strs": ["b", "C", "a"], "rows": [{"a": 2, "n": "x"}, {"a": 1, "n": "y"}, {"a": None}, {"b": 0}],
+    "mixed": [3, None, "a", None], "hash": {"k": [2, 1], "z": 1}, "one": [5],
+}
+
+
+def inplace_cases():
+    cfg = {"mode": "lax", "extra": True, "strict_filters": False, "autoescape": False}
+    for f in INPLACE_FILTERS:
+        for var in ("items", "strs", "rows", "mixed", "hash.k", "one", "other"):
+            for shape in ("{{ V | F }}", "{% assign r = V | F %}{{ r }}|{{ V | join: ',' }}", "{% for e in V %}{{ V | F }}{% endfor %}"):
+                yield {"kind": "pure", "cfg": cfg, "src": shape.replace("V", var).replace("F", f), "data": INPLACE_DATA}
+
+
 @st.composite
 def histories(draw, isolation="caches"):
     r = core.rng(draw)
@@ -265,6 +285,9 @@ def histories(draw, isolation="caches"):
 def campaign(ctx: core.Ctx, tier: str, shard: int, nshards: int) -> None:
     quick = tier == "quick"
     seed = core.sub_seed(ctx.seed, shard)
+    for i, case in enumerate(inplace_cases()):
+        if i % nshards == shard:
+            ctx.run(case, enumerated=True)
     core.drive(pure_cases(), ctx.run, n=(3000 if quick else 60000) // nshards, seed=seed)
     core.drive(histories("caches"), ctx.run, n=(1200 if quick else 20000) // nshards, seed=seed + 1)
     if shard == 0:
